@@ -216,6 +216,11 @@ def corpus():
         hand(["(a (gen 42 (tvar T)) -)"], ["(a (I 43 1 (v i1)))"], params=["T"]),
         hand(["(a (gen 42 (tvar T)) -)"], ["(a (I 49 1 (v i1)))"], params=["T"]),
         hand(["(a (seq (tvar T)) -)", "(b (opt self) N)"], ['(a (L s"x" i1))'], params=["T"], tp=["(T (cls 5))"]),
+        # a generic state with TWO parameters specialised inside a generic class: both written as variables, one as a variable
+        hand(["(a (gen 46 (tvar T) (cls 5)) -)"], ['(a (I 47 1 (a i1) (b s"x")))'], params=["T"], tp=["(T (cls 3))"]),
+        hand(["(a (gen 46 (tvar T) (cls 5)) -)"], ["(a (I 43 1 (v i1)))"], params=["T"], tp=["(T (cls 3))"]),
+        hand(["(a (gen 46 (tvar T) (tvar U)) -)"], ['(a (I 47 1 (a i1) (b s"x")))'], params=["T", "U"], tp=["(T (cls 3))", "(U (cls 5))"]),
+        hand(["(a (gen 46 (cls 3) (cls 5)) -)"], ['(a (I 47 1 (a i1) (b s"x")))'], params=["T"], tp=["(T (cls 3))"]),
         # forward references, Annotated, recursive
         hand(["(a (opt (fwd Node)) -)"], ["(a (I 48 1 (val i1) (next (I 48 2 (val i2) (next N)))))"]),
         hand(["(a (alias R) -)"], ["(a (L (T (I 40 1 (n i1)) i3)))"], aliases=["(R () (seq (tupf (fwd Inner) (ann (cls 3)))))"]),
